@@ -627,6 +627,13 @@ class Arbiter:
             self.WORKERS[pid] = worker
             return pid
 
+        # Until the worker installs its own handlers it would run the ones
+        # inherited from the arbiter, which only queue the signal in this
+        # copy of the arbiter: a stop signal sent to the new worker in that
+        # window would be lost for good.  Let it end the process instead.
+        for s in (signal.SIGTERM, signal.SIGQUIT, signal.SIGINT):
+            signal.signal(s, signal.SIG_DFL)
+
         # Do not inherit the temporary files of other workers
         for sibling in self.WORKERS.values():
             sibling.tmp.close()
